@@ -15,7 +15,7 @@ def kv (key : String) (tok : String) : Option String :=
   if tok.startsWith (key ++ "=") then some ((tok.drop (key.length + 1)).toString) else none
 
 def NErr.tok : NErr → String
-  | .ip => "ip" | .qualify => "qualify" | .wildcard => "wildcard" | .idna => "idna" | .chars => "chars"
+  | .ip => "ip" | .qualify => "qualify" | .wildcard => "wildcard" | .idna => "idna" | .emptyLabel => "emptylabel" | .chars => "chars"
 
 def step (_ : Unit) (toks : List String) (rhs : String) : Unit × Verdict :=
   match toks with
@@ -39,6 +39,7 @@ def step (_ : Unit) (toks : List String) (rhs : String) : Unit × Verdict :=
         match implOk with
         | some s =>
           if ¬ s.all isLDH then ((), .spec "accepted name contains a character outside a-z 0-9 - .")
+          else if emptyLabel s then ((), .spec "accepted name has an empty label (leading/trailing/double dot): not a DNS name")
           else if catIP then ((), .spec "ip address accepted")
           else if catWild then ((), .spec "wildcard accepted")
           else if catLocal then ((), .spec "local name accepted")
